@@ -23,6 +23,7 @@ const preamble = `(declare-fun strkey ((Array Int Int) Int Int) Int)
 (declare-fun subBase (Int) Int)
 (declare-fun subIdx (Int) Int)
 (declare-fun wfopen (Int) Bool)
+(declare-fun chancap (Int) Int)
 (assert (forall ((r Int) (k Int)) (! (and (= (subBase (sub r k)) r) (= (subIdx (sub r k)) k) (< (sub r k) 0)) :pattern ((sub r k)))))
 (define-fun streq ((a1 (Array Int Int)) (o1 Int) (n1 Int) (a2 (Array Int Int)) (o2 Int) (n2 Int)) Bool
   (and (= n1 n2) (forall ((j Int)) (! (=> (and (<= o1 j) (< j (+ o1 n1))) (= (select a1 j) (select a2 (+ o2 (- j o1))))) :pattern ((select a1 j))))
